@@ -34,7 +34,11 @@ FiniteClasses ==
    "float32_boundary",           \* float32 max/min/denormals as doubles
    "random_bits"}                \* seeded random bit patterns (finite)
 RealClasses == SpecialClasses \cup FiniteClasses
-RealRoutes == {"atomic", "xml"}
+(* "atomic"     atomic_to_cim_xml -> TupleParser.unpack_numeric             *)
+(* "xml"        CIMProperty VALUE element -> parse_property                 *)
+(* "keybinding" CIMInstanceName KEYVALUE element -> parse_instancename: a   *)
+(*              real-typed key is a real value written to CIM-XML as well   *)
+RealRoutes == {"atomic", "xml", "keybinding"}
 
 (* observed vector e: t, route, cls, wrote, text, parsed, back, same, btype *)
 RealFails(e) ==
@@ -59,6 +63,6 @@ RealDrift(e) ==
   IF e.wrote # "ok" \/ e.parsed # "ok" THEN {}
   ELSE R("real.parsed-class",
          e.btype = (IF e.t = "real32" THEN "Real32" ELSE "Real64"))
-       \cup (IF e.cls \in SpecialClasses THEN {}
+       \cup (IF e.cls \in SpecialClasses \/ e.route = "keybinding" THEN {}
              ELSE R("real.text-shape", e.shape \in FiniteShapes))
 =============================================================================
